@@ -17,19 +17,22 @@ func boundsFor(prop, tier string) map[string]interface{} {
 		b["dates"] = "zero date or any valid date 0001-01-02..9999-12-31; HH:mm 00:00..24:00; SetTime: any civil time, year 1..9999"
 		b["zone"] = "any fixed offset -14h..+14h (symbolic)"
 		b["history"] = pick("six operations after an earlier SetDoorPasscodes + SetListener call (own symbolic arguments) on the same or another client", "all 36 operation harnesses after such an earlier call")
+		b["configuration"] = "debug printing on or off (symbolic)"
 		b["outside"] = "sequences of more than two calls (argued: no state is carried by the request path)"
 	case "C02":
 		b["reply"] = "all 2^480 payloads behind a correct header (64 symbolic bytes)"
 		b["zone"] = "any fixed offset; GetStatus system date-time also under the two-interval zone view (real-zone twin)"
-		b["sequences"] = pick("GetTimeProfile, GetCardByIndex, GetEvent after an earlier successful call of the same operation", "+ GetStatus, GetDevice")
+		b["sequences"] = pick("GetTimeProfile, GetCardByIndex, GetEvent after an earlier successful call of the same operation", "+ GetStatus, GetDevice") + "; one event delivered by Listen (0x17 and 0x19)"
 		b["outside"] = "years 0000/0001, two-digit system-date years 69..99"
 	case "C03":
 		b["datagrams"] = pick("k <= 2", "k <= 4") + " of symbolic length 0..2048 and content (seam); socket level: k <= " + pick("2", "3") + " datagrams / TCP chunks of length 0..96"
-		b["operations"] = "GetCards, OpenDoor, GetStatus (seam); GetCards over SendUDP, SendTCP, BroadcastTo (socket level)"
+		b["operations"] = "GetCards, OpenDoor, GetStatus (seam, content); all 30 reply-bearing operations (accept/reject half); non-decimal date / date-time fields of the card, time, event, time-profile and status replies; GetCards over SendUDP, SendTCP, BroadcastTo (socket level)"
 		b["outside"] = "longer datagram sequences (argued: the receive loop keeps no state but its deadline)"
 	case "C04":
 		b["replies"] = "symbolic length 0..2048 and content on four routes (broadcast filter, UDP, TCP nil reply, transport error)"
-		b["arguments"] = "nil maps, nil / short IPs, invalid AddrPort, zero dates, enum values over their whole integer range"
+		b["arguments"] = "nil maps, nil / short IPs, invalid AddrPort, zero dates, enum values over their whole integer range; configured controllers without a time zone"
+		b["debug_dump"] = "codec.Dump on byte strings of length 0..40"
+		b["shutdown"] = "quit while one event is being delivered to a slow callback and a second one waits (timer-driven schedule)"
 		b["outside"] = "years outside 0..9999; panics inside fmt / encoding/json internals (trusted)"
 	case "C05":
 		b["types"] = pick("65 message types round trip; 8 types unused-bytes independence", "65 message types, both")
@@ -39,18 +42,18 @@ func boundsFor(prop, tier string) map[string]interface{} {
 	case "C06":
 		b["configuration"] = "device table entry present or not + one unrelated entry, address invalid / 0.0.0.0 / any IPv4, any port, protocol strings of length " + pick("0,3,4", "0..4") + " (symbolic bytes), broadcast address set or not"
 		b["sockets"] = "bind address: not configured, 0.0.0.0:0, 0.0.0.0:P, 127.0.0.1:P with P in 20000..29999; all four driver methods"
-		b["sequences"] = "after an earlier broadcast by another client with its own broadcast address"
+		b["sequences"] = "after an earlier broadcast by another client with its own broadcast address; after an earlier successful SetAddress (any new IP) and discovery on the same client"
 	case "C07":
-		b["arguments"] = "all 2^32 card numbers, PINs, controller ids; format lists of length " + pick("0..2", "0..3") + " over all 256 CardFormat values; 0..6 passcodes over all uint32; HH:mm fields -9..99; net.IP length 0..16; AddrPort kinds invalid/v4/v4-in-v6/v6"
+		b["arguments"] = "all 2^32 card numbers, PINs, controller ids; format lists of length " + pick("0..2", "0..3") + " over all 256 CardFormat values; 0..6 passcodes over all uint32; HH:mm fields -9..99 and, separately, the legal domain 00:00..24:00; net.IP length 0..16; AddrPort kinds invalid/v4/v4-in-v6/v6"
 		b["sequences"] = "PutCard after an earlier PutCard with its own card number and format"
 	case "C09":
 		b["timeout"] = "600 ms (fixed); arrivals >= 150 ms from the deadline, <= 3 timeouts out; slack 400 ms"
 		b["datagrams"] = "k <= " + pick("2", "3") + ", length 0..96, symbolic content and arrival instants"
-		b["faults"] = "open, write, connect may fail; bind port not configured or 127.0.0.1:P (P in 20000..29999)"
+		b["faults"] = "open, write, connect may fail (address in use, refused); TCP connect takes a symbolic time up to beyond the timeout; bind port not configured or 127.0.0.1:P (P in 20000..29999); debug printing on or off"
 		b["schedule"] = "one canonical run-to-block goroutine schedule; deterministic clock"
 	case "C10":
 		b["datagrams"] = "seam: k <= " + pick("2", "3") + " of length 0..2048; socket level: k <= " + pick("2", "3") + " of length 0..96"
-		b["schedule"] = "one canonical run-to-block goroutine schedule (delivery order is schedule-independent by construction: argued)"
+		b["schedule"] = "canonical run-to-block schedule; lazy-start schedule (quit already signalled when the receive loop starts; a burst of " + pick("2", "3") + " events read back to back); timer-driven schedule (quit while an event is in flight)"
 		b["zone"] = "UTC / any fixed offset; system date-time also under the two-interval zone view (real-zone twin)"
 	case "C11":
 		b["datagrams"] = "seam: k <= " + pick("2", "4") + " of length 0..2048; socket level: k <= " + pick("2", "3") + " of length 0..96 arriving within the timeout"
@@ -66,21 +69,22 @@ func boundsFor(prop, tier string) map[string]interface{} {
 		b["zone"] = "any two-interval zone: offsets -14h..+14h, jump < 24h, transition -14h..+38h around 00:00 UTC of the date; other transitions of a real zone: at least two days away (ZoneBounds returns them as arbitrary far times)"
 		b["real_zones"] = "twin harnesses constrained to the installed tzdata (earliest and latest occurrence of each transition shape 1800..2040) run when the generic harness has a finding" + pick("", " and always in this tier")
 	case "C14":
-		b["round_trip"] = "all in-domain values of each scalar type; 128 weekday sets; address shapes 2 x 3 octet-length patterns x 0..5 port digits"
+		b["round_trip"] = "all in-domain values of each scalar type; 128 weekday sets; address shapes 2 x 3 octet-length patterns x 0..5 port digits; composites: segments 1..k (k = 0..3) with symbolic legal HH:mm, cards (symbolic number, dates, four doors, PIN <= 999999), tasks (13 types, symbolic door/cards/dates/start, three weekday sets), time profiles (symbolic ids, dates, 0..3 segments, three weekday sets), two cards / two profiles decoded one after the other"
 		b["reject_text_length"] = "date <= 11, HH:mm <= 6, time of day <= 9, PIN <= 8, control state <= 17, task number 1..3 digits; printable ASCII without JSON escapes"
-		b["outside"] = "round trip of Card/Task/TimeProfile/Segments (havoc stub for encoding/json reflection), Version, MAC, free-text task names"
+		b["outside"] = "text syntax of composite JSON documents (abstract documents stand for encoding/json), reject side of composite types, Version, MAC, free-text task names"
 	case "C15":
 		b["shapes"] = pick("5 octet digit-count patterns x 0..5 port digits per role", "all 81 x 6 per role")
 		b["no_quad_length"] = pick("0..9", "0..16")
 		b["digits"] = "symbolic; octets <= 255 and ports <= 65535 without leading zeros"
+		b["set"] = "Set on a variable that already holds any IPv4 address and port (same or another IP)"
 	case "C16":
-		b["dates"] = "all valid dates 1..9999 (pairs and triples); HH:mm with arbitrary int fields and on 00:00..24:00; date-times from 1970, sub-second part 0..999 ms"
+		b["dates"] = "all valid dates 1..9999 (pairs and triples); HH:mm with arbitrary int fields and on 00:00..24:00; date-times from 1970, sub-second parts 0..999 ms on both sides, also restricted to one calendar day (exact differences)"
 		b["zone"] = "any fixed offset; DateTime.Before also for two instants within 24 h of a zone transition (two-interval view, real-zone twin)"
 	case "C17":
 		b["configuration"] = "device lists of <= 3 devices, <= 4 door names"
-		b["operations"] = "NewUHPPOTE/DeviceList, PutCard/SetTimeProfile/SetAddress/ActivateKeypads arguments, GetDevice/GetCardByIndex/GetListener results, Device.Clone, Card.Clone, discovery through the real Broadcast (2 datagrams), UnmarshalArray/UnmarshalArrayElement"
+		b["operations"] = "NewUHPPOTE/DeviceList, PutCard/SetTimeProfile/SetAddress/ActivateKeypads arguments, GetDevice/GetCardByIndex/GetListener results, Device.Clone, Card.Clone, discovery through the real Broadcast (2 datagrams), UnmarshalArray/UnmarshalArrayElement, the real Listen receive loop (slow handler; burst of 2 events under the lazy-start schedule)"
 	case "C18":
-		b["layouts"] = pick("single-field layouts of 18 field kinds at the boundary offsets (first, last that fits, last two bytes)", "single-field layouts of 18 field kinds at every offset 2..63 where the field fits") + "; hand-written multi-field, batch (UnmarshalArray) and embedded-struct layouts; the 65 shipped message types via C05"
+		b["layouts"] = pick("single-field layouts of 18 field kinds at the boundary offsets (first, last that fits, last two bytes)", "single-field layouts of 18 field kinds at every offset 2..63 where the field fits") + "; each decoded again from a message whose other 63 bytes are arbitrary; hand-written multi-field, batch (UnmarshalArray), embedded-struct and fixed-value-tag (decimal, 0x, 0X) layouts; the 65 shipped message types via C05"
 		b["values"] = "all field values (symbolic)"
 	}
 	b["loop_unwinding"] = "by execution; 4096 back-edges per frame, exceeding it is reported as UNWIND (inconclusive)"
